@@ -48,7 +48,12 @@ Molecules ==
        [name |-> "crowd", z |-> <<1, 1, 8, 6, 1>>, xyz |-> <<R3(0, 0, 0), R3(120, 0, 0), R3(0, 125, 0), R3(0, 0, 130), R3(90, 90, 90)>>],
        \* elements without a tabulated Bragg-Slater radius (the atom-in-molecule weights fall back to a neighbour's)
        [name |-> "HeH",   z |-> <<2, 1>>,          xyz |-> <<R3(0, 0, 0), R3(0, 0, 146)>>],
-       [name |-> "ArOH",  z |-> <<18, 8, 1>>,      xyz |-> <<R3(0, 0, 0), R3(0, 0, 420), R3(0, 170, 500)>>] >>
+       [name |-> "ArOH",  z |-> <<18, 8, 1>>,      xyz |-> <<R3(0, 0, 0), R3(0, 0, 420), R3(0, 170, 500)>>],
+       \* elements of the later rows (their default radial grids have other extents and sizes; SG-1 prescribes shell
+       \* counts beyond argon) and the lightest metal
+       [name |-> "HBr",   z |-> <<35, 1>>,         xyz |-> <<R3(0, 0, 0), R3(0, 0, 267)>>],
+       [name |-> "FeO",   z |-> <<26, 8>>,         xyz |-> <<R3(0, 0, 0), R3(0, 0, 306)>>],
+       [name |-> "LiF",   z |-> <<3, 9>>,          xyz |-> <<R3(0, 0, 0), R3(0, 0, 296)>>] >>
 Dist2(a_, b_) == QSum([k \in 1..3 |-> QMul(QSub(a_[k], b_[k]), QSub(a_[k], b_[k]))])
 \* admissibility of the templates for the end-to-end clause: at least 1.2 bohr apart, at most 5 atoms
 MoleculesAdmissible ==
